@@ -10,7 +10,8 @@
 (*   "no-panic"    any exit status or error value, but never a panic.      *)
 (* A guard case is [site, val, cfg]; the harness owns the AWK spelling of  *)
 (* each site and value (table in harness/c02), the specification owns the  *)
-(* verdict rule.                                                           *)
+(* verdict rule.  Every case is executed twice on one Interpreter (a       *)
+(* failure remembered from the first run must not crash the second).       *)
 (***************************************************************************)
 EXTENDS Integers, Sequences, FiniteSets, TLC, Json
 
@@ -21,8 +22,9 @@ NumSites == {"field-read", "field-assign", "field-incr", "nf-assign", "argc-assi
 \* string sites: a string reaches a separator / mode / regex / name position
 StrSites == {"rs", "fs", "subsep", "convfmt", "ofmt", "ors", "ofs", "dyn-regex-match", "dyn-regex-split", "dyn-regex-sub",
              "dyn-regex-matchfn", "inputmode", "outputmode", "getline-file", "close-name", "printf-format", "field-sep-arg",
-             "rs-then-read", "fs-then-read"}
-OtherSites == {"recursion", "mutual-recursion", "deep-expression", "many-fields", "long-record"}
+             "rs-then-read", "fs-then-read", "operand-fs", "operand-rs", "operand-other"}
+OtherSites == {"recursion", "mutual-recursion", "deep-expression", "many-fields", "long-record", "recursion-with-locals",
+               "runaway-recursion-with-locals", "field-values", "getline-other-file-wider", "getline-var-in-csv"}
 
 \* numeric value classes: sign, magnitude relative to the field limit and the integer ranges, fractional or not
 NumVals == {"-huge", "-int64", "-int32", "-1", "-0.5", "0", "0.5", "1", "limit-1", "limit", "limit+1", "int32", "int32+1", "int53",
@@ -37,14 +39,14 @@ Cfgs == {"default", "chars", "csv-in", "tsv-in-csv-out", "header"}
 
 Class(site, val) ==
   IF site \in {"field-assign", "nf-assign", "field-incr", "getline-field"} /\ val \in Oversized THEN "must-error"
-  ELSE IF site \in {"recursion", "mutual-recursion"} THEN "must-error"
+  ELSE IF site \in {"recursion", "mutual-recursion", "runaway-recursion-with-locals"} THEN "must-error"
   ELSE IF site \in {"dyn-regex-match", "dyn-regex-split", "dyn-regex-sub", "dyn-regex-matchfn"} /\ val \in InvalidRegex THEN "must-error"
   ELSE "no-panic"
 
 Cases ==
        {[site |-> st, val |-> v, cfg |-> cf] : st \in NumSites, v \in NumVals, cf \in {"default", "chars"}}
   \cup {[site |-> st, val |-> v, cfg |-> cf] : st \in StrSites, v \in StrVals, cf \in Cfgs}
-  \cup {[site |-> st, val |-> "none", cfg |-> cf] : st \in OtherSites, cf \in {"default"}}
+  \cup {[site |-> st, val |-> "none", cfg |-> cf] : st \in OtherSites, cf \in {"default", "chars", "csv-in", "tsv-in-csv-out"}}
 
 VARIABLES cs, done
 Init == cs \in Cases /\ done = FALSE
